@@ -27,6 +27,14 @@ func c17Plain(f *File, list []ast.Stmt) []ast.Stmt {
 		if is, ok := st.(*ast.IfStmt); ok && f.Str(is.Cond) == "verifhook.Enabled" {
 			continue
 		}
+		// `defer func() { if verifhook.Enabled { … } }()`: a hook that fires on the way out
+		if ds, ok := st.(*ast.DeferStmt); ok {
+			if fl, ok := ds.Call.Fun.(*ast.FuncLit); ok && len(ds.Call.Args) == 0 && len(fl.Body.List) == 1 {
+				if is, ok := fl.Body.List[0].(*ast.IfStmt); ok && f.Str(is.Cond) == "verifhook.Enabled" && is.Else == nil {
+					continue
+				}
+			}
+		}
 		out = append(out, st)
 	}
 	return out
